@@ -26,4 +26,5 @@ RULE = ("case = rule set with 1-4 start conditions, <<EOF>> rules (none / unqual
         "yyin unchanged; programs that start on a string buffer and go on with files through yywrap")
 REQUIRED = {"eof": 50, "eof_rule": 5, "wrap_next": 10, "wrap_next_empty": 1, "newin": 1,
             "restart": 1, "eof_empty_source": 1, "include_mode": 1, "wrap_pop": 3,
-            "soft_end_of_input": 3, "wrap_soft": 10, "string_then_files": 3}
+            "soft_end_of_input": 3, "wrap_soft": 10, "string_then_files": 3,
+            "string_then_files:scan_buffer": 2, "string_then_files:scan_bytes": 2}
